@@ -75,6 +75,10 @@ def make_pool():
         e['ListSub']([1]), e['DictSub'](a=1), e['TupleSub']((1,)), e['SetSub']({1}),
         e['WithFoo'](), e['WithFooLen'](), e['G'](1), e['GSub'](2), e['L']([1]), e['L'](['a']),
         e['M'](a=1), e['M']({1: 1}), e['LInt']([1]), e['GenSeq']([1]), e['GenSeq'](['a']),
+        e['Bag']([1]), e['Bag'](['a']), e['Bag'](), e['Table']({'a': 1}), e['Table']({'a': e['Bag']([1])}),
+        e['Table']({'a': e['Bag'](['x'])}), e['Table']({1: [e['Bag'](['s'])]}), e['Table']({1: [e['Bag']([1])]}),
+        e['PairL']([e['Bag'](['a'])]), e['PairL']([e['Bag']([1])]), e['Scores']({1: 'a'}), e['Scores']({'a': 1}),
+        e['Scores']({1: 1}), e['Table']({1: 'a'}),
         int, str, bool, float, A, B, C, D, Col, type, object, list, dict, e['IntSub'],
         len, fn, gen(), iter([1]), iter(()), object(), lambda: 0,
     ]
@@ -1082,6 +1086,10 @@ def named_nodes():
     def g_LInt(rng, cx, d): return e['LInt']([rng.randint(0, 9) for _ in range(size_pick(rng, d))])
     def g_Mint(rng, cx, d): return e['M']({'k%d' % i: i for i in range(size_pick(rng, d))})
     def g_GenSeq(rng, cx, d): return e['GenSeq']([rng.randint(0, 9) for _ in range(size_pick(rng, d))])
+    def bag(item):
+        mk = (lambda rng, i: rng.randint(0, 9)) if item.src == 'int' else (lambda rng, i: 's%d' % i)
+        return NamedH(f'Bag[{item.src}]', 'generic:list-sub', isinst='Bag', items=('seq', item),
+                      gen=lambda rng, cx, d: e['Bag']([mk(rng, i) for i in range(size_pick(rng, d))]))
     def g_foo(rng, cx, d): return rng.choice([e['WithFoo'](), e['WithFooLen']()])
     def g_foolen(rng, cx, d): return e['WithFooLen']()
     return [
@@ -1107,6 +1115,21 @@ def named_nodes():
         lambda: NamedH('LInt', 'generic:list-subclass', isinst='LInt', items=('seq', I), gen=g_LInt),
         lambda: NamedH('M[int]', 'generic:dict-sub', isinst='M', items=('map', S, I), gen=g_Mint),
         lambda: NamedH('GenSeq[int]', 'generic:seq-sub', isinst='GenSeq', items=('seq', I), gen=g_GenSeq),
+        # two-parameter generics, generics nested in each other over a shared TypeVar, bounded TypeVars left open
+        lambda: bag(I),
+        lambda: bag(S),
+        lambda: NamedH('Table[str, int]', 'generic:dict2-sub', isinst='Table', items=('map', S, I),
+                       gen=lambda rng, cx, d: e['Table']({'k%d' % i: i for i in range(size_pick(rng, d))})),
+        lambda: NamedH('Table[str, Bag[int]]', 'generic:dict2-sub-nested', isinst='Table', items=('map', S, bag(I)),
+                       gen=lambda rng, cx, d: e['Table']({'k%d' % i: bag(I).gen_in(rng, cx, d + 1) for i in range(size_pick(rng, d))})),
+        lambda: NamedH('Table[int, list[Bag[str]]]', 'generic:dict2-sub-nested', isinst='Table',
+                       items=('map', I, SeqH('list', bag(S))),
+                       gen=lambda rng, cx, d: e['Table']({i: [bag(S).gen_in(rng, cx, d + 2) for _ in range(size_pick(rng, d + 1))]
+                                                         for i in range(size_pick(rng, d))})),
+        lambda: NamedH('PairL[int, Bag[str]]', 'generic:list2-sub-nested', isinst='PairL', items=('seq', bag(S)),
+                       gen=lambda rng, cx, d: e['PairL']([bag(S).gen_in(rng, cx, d + 1) for _ in range(size_pick(rng, d))])),
+        lambda: NamedH('Scores', 'generic:dict2-subclass-bounded-typevars', isinst='Scores', items=('map', I, S),
+                       gen=lambda rng, cx, d: e['Scores']({i: 's%d' % i for i in range(size_pick(rng, d))})),
     ]
 
 
